@@ -31,6 +31,16 @@ def apply(kind, data, p):
             return data.decode('utf-8').encode(p['to'], 'replace')
         except UnicodeDecodeError:
             return data
+    if kind == 'disk.redeclare':
+        # not damage: the same document as another tool would store it, declared and encoded in p['to']
+        try:
+            text = data.decode('utf-8')
+        except UnicodeDecodeError:
+            return data
+        if 'encoding="UTF-8"' not in text[:100]:
+            return data
+        text = text.replace('encoding="UTF-8"', 'encoding="%s"' % p['to'].upper(), 1)
+        return text.encode(p['to'], 'xmlcharrefreplace')
     if kind == 'disk.token_rot':
         return token_rot(data, p)
     raise ValueError(kind)
